@@ -5,6 +5,10 @@ import PyamgV.Model.C07Example
 import PyamgV.Proofs.C07GmresKry
 import PyamgV.Proofs.GmresGivens
 import PyamgV.Proofs.ArnoldiStep
+import PyamgV.Proofs.ExtC07Restart
+import PyamgV.Proofs.ExtC07Fgm
+import PyamgV.Proofs.ExtC07Kry
+import PyamgV.Proofs.ExtC07Vec
 import Mathlib.Analysis.Real.Sqrt
 
 /-! # C07 — Krylov iterates are the optimal elements of the Krylov space
@@ -85,6 +89,82 @@ restate gmres_mgs_basis_spans_krylov := PyamgV.C07.gmres_basis_span
 left-preconditioned residual over it -/
 restate gmres_mgs_optimal_krylov := PyamgV.C07.gmres_mgs_model_optimal_krylov
 
+/-! ### extension E11 — restarted GMRES(MGS): the model `gmresRestart` (`Model/ExtC07Restart.lean`, run by the driver
+in binary64, op `ext_gmres_restart`) instantiated over a `K`-module -/
+/-- entry `j·r + m` of the callback log of the restarted run (iterate `m+1` of cycle `j`; `m < r`, `m + 1 < n`, no
+breakdown in that cycle) lies in `x^(j) + K_{m+1}(MA, M(b − A x^(j)))`, `x^(j)` the restart point, and minimises the
+2-norm of the preconditioned residual over it -/
+restate gmres_restart_optimal := PyamgV.C07.gmres_restart_optimal
+/-- … its preconditioned residual is at most the one of the restart point of its cycle -/
+restate gmres_restart_le_start := PyamgV.C07.gmres_restart_le_start
+/-- … and the preconditioned residual norm does not increase from one inner iteration to the next -/
+restate gmres_restart_step_monotone := PyamgV.C07.gmres_restart_step_mono
+/-- monotonicity across restarts: `‖M(b − A x^(j+1))‖ ≤ ‖M(b − A x^(j))‖` (cycle length `0 < r < n`) -/
+restate gmres_restart_points_monotone := PyamgV.C07.gmres_restart_points_mono
+/-- … hence `‖M(b − A x^(j))‖ ≤ ‖M(b − A x₀)‖` after any number of breakdown-free cycles -/
+restate gmres_restart_points_le_initial := PyamgV.C07.gmres_restart_points_le_initial
+/-- the log is cut into cycles of `r` entries; entry `j·r + m` is the last iterate of `m+1` inner iterations from `x^(j)` -/
+restate gmres_restart_log_entry := PyamgV.C07.restartLog_getElem
+
+/-! ### extension E11 — FGMRES: the executable model `fgStep` of one cycle of `_fgmres.py` (`Model/ExtC07Hh.lean`:
+Householder--Arnoldi with the kernels `apply_householders`, Givens rotations, back substitution, `x₀ + Z y`; run
+by the driver in binary64, op `ext_fgmres`), over a `K`-module with orthonormal coordinate vectors `E_0 … E_{n-1}` -/
+/-- the iterates of the model are the `xs` of the states `fgSeq` the theorems are about -/
+restate fgmres_model_states := PyamgV.C07.fgmresHh_eq
+/-- after `m + 1 < n` inner iterations (`r₀ ≠ 0`, triangular factor non-singular) the recorded iterate lies in
+`x₀ + span{z_0 … z_m}` and minimises the 2-norm of the true residual `b − A x` over it, `z_j` the preconditioned
+directions -- for arbitrary maps `pre j` (right preconditioner changing from step to step) -/
+restate fgmres_optimal := PyamgV.C07.fgmres_hh_optimal
+/-- the directions are `z_j = pre j (v_j)` with `v_0 … v_k` orthonormal and `r₀ = β v_0` -/
+restate fgmres_directions := PyamgV.C07.fgmres_hh_directions
+/-- the Householder--Arnoldi and the Givens invariant hold in every state `k < n` of the FGMRES model -/
+restate fgmres_invariant := PyamgV.C07.fgSeq_inv
+/-- one Householder--Arnoldi step (`hhArnoldi`, shared by `_fgmres.py` and `_gmres_householder.py`) keeps the invariant:
+unit-or-zero reflectors with leading zeros, Arnoldi relation `B z_j = Σ_l H_{l j} (P_0 ⋯ P_k E_l)` -/
+restate householder_arnoldi_step_invariant := PyamgV.C07.hhInv_step
+/-- the reflector `newReflO` builds: unit vector, maps `u` to `−α E'` -/
+restate householder_vector := PyamgV.C07.househ
+/-! ### extension E11 — GMRES with Householder orthogonalisation: the executable model `ghStep` of one cycle of
+`_gmres_householder.py` (same Householder--Arnoldi process with `pre = id`, operator `MA`; update by the Horner
+scheme `householder_hornerscheme`; run by the driver in binary64, op `ext_gmres_hh`) -/
+restate gmres_householder_model_states := PyamgV.C07.gmresHh_eq
+/-- the Horner scheme computes `Σ_j y_j (P_0 ⋯ P_j E_j)` -/
+restate householder_horner_scheme := PyamgV.C07.hornerO_eq
+/-- after `m + 1 < n` inner iterations the recorded iterate minimises `‖M(b − A x)‖₂` over `x₀ + span{v_0 … v_m}`,
+`v_j` the orthonormal Householder--Arnoldi vectors -/
+restate gmres_householder_optimal := PyamgV.C07.gmres_hh_optimal
+/-- an Arnoldi relation with non-zero subdiagonal makes the basis span the Krylov space (any orthogonalisation) -/
+restate arnoldi_span_krylov := PyamgV.C07.arnoldi_span_krylov
+/-- without breakdown `span{v_0 … v_m} = K_{m+1}(MA, M r₀)` -/
+restate gmres_householder_basis_spans_krylov := PyamgV.C07.gmres_hh_basis_span
+/-- C07 for GMRES(Householder) as stated: the iterate lies in `x₀ + K_{m+1}(MA, M r₀)` and minimises the 2-norm of
+the left-preconditioned residual over it -/
+restate gmres_householder_optimal_krylov := PyamgV.C07.gmres_hh_optimal_krylov
+
+/-- Givens bookkeeping (`givensUpdate`, `backSub`) + orthonormal `v_l` + Arnoldi relation ⇒ optimal iterate; the
+list-level statement shared by the MGS and the Householder models -/
+restate givens_lists_optimal := PyamgV.C07.givL_optimal
+
+/-! ### extension E11 — the instance the driver executes: the GMRES models on `Vector K n` with `vecOps` / `hopsVec`
+(coordinate access, unit vectors, "zero the first `i` entries") are carried by `toFn` onto the module instance the
+theorems above are about; the same four results for the `Vector` definitions (ordered field with an exact square
+root in place of binary64) -/
+/-- `toFn` commutes with the operations of `hopsVec`; `get`/`basis`/`tail` are coordinates with respect to `stdE` -/
+restate vector_hops_is_module_hops := PyamgV.C07.hopsHom_vec
+/-- any map commuting with the vector operations commutes with the FGMRES model (purely structural) -/
+restate fgmres_model_hom := PyamgV.C07.fgmresHh_hom
+restate gmres_householder_model_hom := PyamgV.C07.gmresHh_hom
+restate gmres_mgs_model_hom := PyamgV.C07.gmresMgs_hom
+restate gmres_restart_model_hom := PyamgV.C07.gmresRestart_hom
+/-- GMRES(MGS), the `Vector` definition run by op `c07_gmres_mgs` -/
+restate gmres_mgs_vec_optimal_krylov := PyamgV.C07.gmres_mgs_vec_optimal_krylov
+/-- restarted GMRES(MGS), the `Vector` definition run by op `ext_gmres_restart` -/
+restate gmres_restart_vec_optimal := PyamgV.C07.gmres_restart_vec_optimal
+/-- FGMRES, the `Vector` definition run by op `ext_fgmres` -/
+restate fgmres_vec_optimal := PyamgV.C07.fgmres_vec_optimal
+/-- GMRES(Householder), the `Vector` definition run by op `ext_gmres_hh` -/
+restate gmres_householder_vec_optimal_krylov := PyamgV.C07.gmres_hh_vec_optimal_krylov
+
 /-! ### GMRES (both orthogonalisations) and FGMRES, algorithmic level
 orthonormal Arnoldi basis + Arnoldi relation + unit Givens rotations zeroing the subdiagonal +
 solved triangular system ⇒ `x₀ + Σ y_j z_j` minimises the (preconditioned) residual norm over
@@ -130,5 +210,11 @@ end example2
 /-- the square-root hypotheses of the GMRES theorems are satisfiable (over `ℝ`) -/
 example : ∃ sqrt : ℝ → ℝ, (∀ a, 0 ≤ a → sqrt a * sqrt a = a) ∧ (∀ a, 0 ≤ sqrt a) :=
   ⟨Real.sqrt, fun _ h => Real.mul_self_sqrt h, Real.sqrt_nonneg⟩
+
+/-- the coordinate-family hypothesis of the Householder theorems is satisfied by the unit vectors of `Kⁿ` with the
+Euclidean form, which is definite (the instance the `Vector` theorems use) -/
+example : PyamgV.C07.OrthoFam (PyamgV.C07.dotForm Rat 4) (PyamgV.C07.stdE 4) 4 ∧
+    (∀ v : Fin 4 → Rat, (PyamgV.C07.dotForm Rat 4).a v v = 0 → v = 0) :=
+  ⟨PyamgV.C07.stdE_ortho, PyamgV.C07.dotForm_def⟩
 
 end PyamgV.Props.C07
